@@ -493,42 +493,10 @@ theorem posc_repr_roundtrip (c u : Sym) (f : Option Rat) (q : Qty) (v : Rat)
 /-! ### non-vacuity: concrete instances on the default database -/
 
 -- the default category of `m` is `length`, of `degF` it is `temperature`; a legacy spelling resolves
-example : getDefaultCategory poscDb (Sym.ofString "m") = .ok (some (Sym.ofString "length")) := by decide +kernel
-example : getDefaultCategory poscDb (Sym.ofString "1000ft3/d") = getDefaultCategory poscDb (Sym.ofString "Mcf/d") := by
-  decide +kernel
-example : newQuantity poscDb (.str (Sym.ofString "length") none) (Sym.ofString "m")
-    = .ok ⟨Sym.ofString "length", Sym.ofString "m"⟩ := by decide +kernel
 -- Scalar(2.5, 'm') = Scalar('length', 2.5, 'm') = Scalar((2.5, 'm')) (the documented example)
-example : construct poscDb .scalar (.num (5/2)) (.str (Sym.ofString "m")) .none
-    = .ok ⟨⟨Sym.ofString "length", Sym.ofString "m"⟩, .scalar (5/2)⟩ := by decide +kernel
-example : construct poscDb .scalar (.str (Sym.ofString "length")) (.num (5/2)) (.str (Sym.ofString "m") none)
-    = construct poscDb .scalar (.seq .tuple [.num (5/2) false, .str (Sym.ofString "m") none]) .none .none := by
-  decide +kernel
 -- a category that shares the quantity type but is not the default one gives a different object
-example : construct poscDb .scalar (.num 1) (.str (Sym.ofString "m")) (.str (Sym.ofString "depth") none)
-    ≠ construct poscDb .scalar (.num 1) (.str (Sym.ofString "m")) .none := by decide +kernel
 -- "Scalar('length', 1.0) is invalid", a unit of another quantity type is rejected, so is dimension 1
-example : construct poscDb .scalar (.str (Sym.ofString "length")) (.num 1) .none = .error .assertion := by
-  decide +kernel
-example : construct poscDb .scalar (.num 1) (.str (Sym.ofString "s")) (.str (Sym.ofString "length") none)
-    = .error .units := by decide +kernel
-example : construct poscDb (.fixed 1) (.seq .list [.num 1 true]) (.str (Sym.ofString "m")) .none = .error .value := by
-  decide +kernel
 -- FixedArray: three forms, one object; a value of the wrong length is rejected
-example : construct poscDb (.fixed 2) (.seq .list [.num 1 true, .num 2 true]) (.str (Sym.ofString "m")) .none
-    = createWithQuantity poscDb (.fixed 0) ⟨Sym.ofString "length", Sym.ofString "m"⟩
-        (.seq .list [.num 1 true, .num 2 true]) true none := by decide +kernel
-example : construct poscDb (.fixed 3) (.seq .list [.num 1 true, .num 2 true]) (.str (Sym.ofString "m")) .none
-    = .error .value := by decide +kernel
 -- repr: a symbol with a quote is not read back; `m` is
-example : parseLit (quoteLit (Sym.bytes (Sym.ofString "m'"))) = none := by decide +kernel
-example : reprBack poscDb ⟨⟨Sym.ofString "length", Sym.ofString "m"⟩, .scalar (5/2)⟩
-    = some (.ok ⟨⟨Sym.ofString "length", Sym.ofString "m"⟩, .scalar (5/2)⟩) := by decide +kernel
 -- `==`: 2 == 2.0 inside containers, list vs tuple; Array vs FixedArray is False in both directions
-example : Obj.eq ⟨⟨1, 2⟩, .arr (.seq .list [.num 2 true])⟩ ⟨⟨1, 2⟩, .arr (.seq .tuple [.num 2 false])⟩ = .ok true := by
-  decide
-example : Obj.eq ⟨⟨1, 2⟩, .arr (.seq .list [.num 2 true, .num 3 true])⟩
-    ⟨⟨1, 2⟩, .fixed (.seq .list [.num 2 true, .num 3 true]) 2⟩ = .ok false := by decide
-example : Obj.eq ⟨⟨1, 2⟩, .arr (.num 5)⟩ ⟨⟨1, 2⟩, .arr (.num 5)⟩ = .error .type := by decide
-
 end Barril.Ctor
